@@ -1,7 +1,7 @@
 """C09 — the collector frees exactly the unreachable objects, exactly once
    (+ the collector-level half of C10: collection is unobservable, nothing is left behind).
 
-Proof:   coq/C09/Props_C09.v (12 theorems) and coq/C09/Props_C10gc.v (5 theorems) over the hand-written, phase-by-phase
+Proof:   coq/C09/Props_C09.v (20 theorems) and coq/C09/Props_C10gc.v (6 theorems) over the hand-written, phase-by-phase
          model coq/C09/GcModel.v: representation invariant over all histories, is_rooted exact, marking = abstract
          reachability, collect frees exactly the unreachable nodes once and re-establishes the invariant (when no
          unreachable box has a resurrecting finalizer; refuted otherwise), reachable sub-heap preserved, drop-all empties.
@@ -41,7 +41,7 @@ TRUSTED = [
     "coq/C09/GcModel.v is a hand transliteration of core/gc/src (lib.rs Collector::*, pointers/*.rs, internals/*.rs): tied to the code only by the differential runs of this check",
     "tools/rs2v.py + tools/gen_c09.py (gc_header.rs -> coq/Gen/GcHeader.v; refuses anything outside the subset); Rust facts used: u32::BITS = 32, !x on u32 = x xor 0xFFFFFFFF, wrapping_add = + mod 2^32",
     "extraction (ExtrOcamlBasic only) + OCaml 4.13 + ocaml/C09/driver.ml (parsing, printing, enumeration, random generation)",
-    "harness/src/bin/gcops.rs (payload types, handle tables, Drop/Finalize logs), boa_gc::verif::stats hook",
+    "harness/src/bin/gcops.rs (payload: handles spread over Vec/Option/struct-in-GcRefCell/enum/Box/tuple/BTreeMap and nested ephemeron values via derive(Trace, Finalize); handle tables, Drop/Finalize logs), boa_gc::verif::stats hook",
     "modelled, not verified: memory safety of the unsafe blocks, Box allocation, hashbrown (table order is unobservable here), ref-count overflow at 2^31 handles (panic path), GcRefCell borrow flags (no borrow is held across an operation)",
     "gen/c09_oracle.py (abstract reachability oracle) and this driver",
 ]
